@@ -50,6 +50,9 @@ class DimwiseCheck(Check):
 
 
 def add_two_legs(cfg, r, p=0.25):
+    if cfg.get("cluster"):
+        cfg["two_legs"] = None      # the cluster wanders with the evaluation counter
+        return
     """a share of the histories is interrupted by the documented stop mechanism (a point limit) and continued - through
     continue_adaptive_refinement or through a new driver call that is handed the returned container; the clauses hold at the
     return of the first call, during the first evaluation of the continued run and afterwards"""
@@ -102,12 +105,24 @@ class C06(DimwiseCheck):
 class C03(DimwiseCheck):
     pid = "C03"
     runs = {"quick": 2000, "thorough": 25000}
-    budget_s = {"quick": 80.0, "thorough": 800.0}
+    budget_s = {"quick": 100.0, "thorough": 900.0}
     rule = ("schedule as for C06 (dimension-wise strategy, versions 2/3/6/7/8, rebalancing on/off, boundary on/off, arbitrary benefit "
             "answers); after every evaluation every component grid of the current scheme is inspected through the public observation "
             "points and the combined interpolant is compared with an integrand that is arbitrary per point (keyed hash). A state is the "
             "interval/level structure; distinct_nontrivial counts distinct refined structures on which the combination was checked")
     expected_probes = ["rebalancing", "new_lmax"]
+
+    def gen(self, rk, tier, idx):
+        r = stream(rk, "cfg")
+        cfg = DS.gen_cfg(r, tier, cluster_p=0.25)
+        add_two_legs(cfg, stream(rk, "legs"))
+        if cfg.get("cluster"):
+            cfg["two_legs"] = None      # the cluster wanders with the evaluation counter
+        s = {"config": cfg, "ops": []}
+        c = s["config"]
+        if c["lmax"] <= c["lmin"]:      # the statement quantifies over lmin < lmax start configurations
+            c["lmax"] = c["lmin"] + 1
+        return s
 
     def monitors(self):
         return [DS.CombinationMonitor()]
@@ -138,6 +153,13 @@ class C04(DimwiseCheck):
             cfg["boundary"] = True      # multilinear functions do not vanish on the boundary
             if strategy == "extend_split" and cfg["lmin"] == cfg["lmax"]:
                 cfg["automatic"] = False    # this combination raises inside the benefit estimate (known finding of C07)
+            g = stream(rk, "grid")
+            if strategy == "extend_split" and g.random() < 0.25:
+                # the other local grid families that run in this strategy here integrate multilinear functions exactly as well
+                cfg["grid"] = g.choice(ES.LOCAL_GRIDS[1:])
+                cfg["single_dim"] = False
+                if cfg["lmin"] < cfg["lmax"] and g.random() < 0.5:
+                    cfg["automatic"] = True
             p = stream(rk, "probes")
             cfg["probes"] = [["ml", [[round(p.uniform(-2, 2), 3), round(p.uniform(-2, 2), 3)] for _ in range(cfg["dim"])]] for _ in range(3)] + \
                             DS.linear_probes(p, cfg["dim"], 1)
@@ -228,10 +250,18 @@ class C05(DimwiseCheck):
             from engines import extendsplit_sim as ES
             cfg = ES.gen_cfg(r, tier)
             cfg["version"] = 0          # the statement names extend-split in its default coarsening version
-            cfg["grid"] = r.choice(["TrapezoidalGrid"] * 6 + ES.LOCAL_GRIDS[1:])     # "every grid type" that runs in this strategy here
+            cfg["grid"] = r.choice(["TrapezoidalGrid"] * 6 + ES.LOCAL_GRIDS[1:] + ["MixedGrid"] * 2)     # "every grid type" that runs in this strategy here
             if cfg["grid"] != "TrapezoidalGrid":
                 cfg["boundary"] = True
                 cfg["single_dim"] = False
+            if cfg["grid"] == "MixedGrid":
+                # 1-D families and boundary flags chosen per dimension (Simpson without boundary points does not run here)
+                m = stream(rk, "mixed")
+                cfg["mixed"] = []
+                for d in range(cfg["dim"]):
+                    k = m.choice(["Trapezoidal", "Trapezoidal", "ClenshawCurtis", "Simpson"])
+                    cfg["mixed"].append([k, True if k == "Simpson" else m.random() < 0.5])
+                cfg["boundary"] = all(bd for _, bd in cfg["mixed"])
             if cfg["lmin"] == cfg["lmax"]:
                 cfg["automatic"] = False   # automatic decision at lmin == lmax raises (known finding of C07), not this property's subject
             cfg["max_leaves"] = 10 ** 6
